@@ -209,7 +209,9 @@ def field_accesses(func_node: ast.FunctionDef, self_name: str = "self",
             # does not touch the shared object; dereferences and iteration do
             par = pm.get(id(node))
             iterated = isinstance(par, (ast.For, ast.comprehension)) and par.iter is node
-            if not iterated:
+            passed = isinstance(par, ast.Call) and node in par.args and not (
+                isinstance(par.func, ast.Name) and par.func.id in ("isinstance", "id", "type"))
+            if not iterated and not passed:
                 return
         out.append(FieldAccess(field, "read", node, via))
 
